@@ -83,6 +83,17 @@ scripts under /var/tmp/imp-C15C16):
                                         the only difference after unshelve is that selected deletions of missing files
                                         lost their versioning.  Model: unshelveMissing, missing_restored_iff,
                                         missing_unversioned_witness.
+  entangled-missing-file                a versioned file that is missing from disk AND whose inventory slot is not simply
+                                        "its basis place" (it was renamed / swapped / moved into an added directory
+                                        before it went missing, or its directory has been replaced by a file): the
+                                        transforms do not see the slot.  Observed: `mv a tmp; mv b a; mv tmp b; rm b`,
+                                        shelve the rename of the other file -> accepted, two inventory entries for one
+                                        path, the tree cannot be opened; `rm -r dir; echo > dir` with a missing child,
+                                        shelve --all -> TransformRenameFailed (ENOTDIR); a missing file below an added
+                                        directory, shelve the directory's addition -> ImmortalPendingDeletion AFTER the
+                                        directory was removed.  Classifier: entangled_missing(an) non-empty and (a closed
+                                        selection refused | the remaining tree is ill-formed only through such a slot
+                                        and the code went ahead).  These scenarios are not compared with the model.
   empty-basis-shelf-unreadable          tree without commits: `add f; shelve --all; unshelve` fails with NoFinalPath (the
                                         root stored by write_shelf has no name), f is lost; classifier: basis without
                                         root, closed non-empty selection, NoFinalPath.  Oracle only.
@@ -654,22 +665,26 @@ def dump_wt(d):
     from breezy.workingtree import WorkingTree
     wt = WorkingTree.open(d)
     ents, missing, vpaths, rec = {}, [], set(), {}
+    miss_pos = {}
     with wt.lock_read():
-        changes = sorted(
-            (c.file_id.decode("latin-1"), list(c.path), bool(c.changed_content), list(c.versioned),
-             [x.decode("latin-1") if x is not None else None for x in c.parent_id], list(c.name), list(c.kind),
-             list(c.executable))
-            for c in wt.iter_changes(wt.basis_tree()))
         for path, ie in wt.iter_entries_by_dir():
             vpaths.add(path)
             de = _disk_entry(_join(d, path))
             if de is None:
                 missing.append(ie.file_id)
+                miss_pos[ie.file_id] = (ie.parent_id, ie.name)
                 continue
             ents[ie.file_id] = (ie.parent_id, ie.name) + de
             if de[0] == "f":
                 rec[ie.file_id] = bool(ie.executable)
         confl = len(wt.conflicts())
+        # (after the inventory walk: iter_changes refreshes the dirstate's idea of the kinds on disk, and the
+        # inventory generated afterwards no longer lists the children of a directory that has become a file)
+        changes = sorted(
+            (c.file_id.decode("latin-1"), list(c.path), bool(c.changed_content), list(c.versioned),
+             [x.decode("latin-1") if x is not None else None for x in c.parent_id], list(c.name), list(c.kind),
+             list(c.executable))
+            for c in wt.iter_changes(wt.basis_tree()))
     strays = {}
     for dirpath, dirnames, filenames in os.walk(d):
         rel = os.path.relpath(dirpath, d)
@@ -681,7 +696,7 @@ def dump_wt(d):
             if r not in vpaths:
                 strays[r] = _disk_entry(os.path.join(dirpath, n))[:2]
         dirnames[:] = [x for x in dirnames if not os.path.islink(os.path.join(dirpath, x))]
-    return ents, sorted(missing), strays, confl, rec, changes
+    return ents, sorted(missing), strays, confl, rec, changes, miss_pos
 
 
 def dump_preview(tree):
@@ -823,7 +838,7 @@ def analyse(sc):
     from breezy.workingtree import WorkingTree
     from breezy import shelf
     d = sc["dir"]
-    W, missing, strays, confl, rec, changes0 = dump_wt(d)
+    W, missing, strays, confl, rec, changes0, miss_pos = dump_wt(d)
     wt = WorkingTree.open(d)
     items, hunks, changes = [], {}, []
     with wt.lock_tree_write():
@@ -855,7 +870,7 @@ def analyse(sc):
         finally:
             cr.finalize()
     return dict(B=B, W=W, missing=missing, strays=strays, items=items, hunks=hunks, changes=changes, rec=rec,
-                iter_changes=changes0)
+                iter_changes=changes0, miss_pos=miss_pos)
 
 
 def err_kind(e):
@@ -928,7 +943,7 @@ def run_case(arg):
     try:
         res["d1"] = dump_wt(d)
     except Exception as e:  # noqa  (an unreadable working tree is reported by the oracle)
-        res["d1"] = ({}, [], {}, "corrupt", {}, [], "%s: %s" % (type(e).__name__, str(e)[:200]))
+        res["d1"] = ({}, [], {}, "corrupt", {}, [], {}, "%s: %s" % (type(e).__name__, str(e)[:200]))
         shutil.rmtree(d, ignore_errors=True)
         return res
     if res["err"] is None:
@@ -1344,6 +1359,21 @@ def subsets_of(ctx, n, cap):
 FAM_UNCLOSED = "unclosed-selection-accepted"
 FAM_MISSING = "missing-file-unversioned-by-unshelve"
 FAM_EMPTY = "empty-basis-shelf-unreadable"
+FAM_ENTANGLED = "entangled-missing-file"
+
+
+def entangled_missing(an):
+    """versioned-but-missing files whose inventory slot matters beyond 'deleted at its basis place': renamed / moved
+    before they went missing, or sitting below something that is not (any more) a directory of the tree, or below an
+    added directory.  The model (and iter_shelvable, which offers only their deletion) does not see that slot."""
+    B, W = an["B"], an["W"]
+    out = []
+    for f, (p, n) in sorted(an["miss_pos"].items()):
+        b = B.get(f)
+        pe = W.get(p)
+        if b is None or (b[0], b[1]) != (p, n) or pe is None or pe[2] != "d" or p not in B:
+            out.append(f)
+    return out
 
 
 def why_not_tree(t):
@@ -1392,7 +1422,15 @@ def check_result(ctx, sc, an, enc, sel, via, res, variant):
     ctx.count("selected:%d/%d" % (len(sel), len(an["items"])))
     expW1 = expect_shelved(an, sel)
     expS = expect_shelf(an, sel)
-    is_closed = py_wf(expW1) and py_wf(expS)
+    # the inventory slots of the files that stay versioned-but-missing count for well-formedness
+    occ = {f: (pos[0], pos[1], "m", b"", False) for f, pos in an["miss_pos"].items() if f not in expW1}
+    w1_wf = py_wf({**expW1, **occ})
+    is_closed = w1_wf and py_wf(expS)
+    ent = entangled_missing(an)
+    fam_ent = FAM_ENTANGLED if ent else None
+    slot_ignored = bool(ent) and py_wf(expW1) and not w1_wf
+    if ent:
+        ctx.count("entangled-missing-file:model-skipped")
     w1, rec1 = res["d1"][0], res["d1"][4]
     by = selected_kinds(an, sel)
     # versioned files that are missing from disk: a shelved deletion re-creates the file, the others stay missing
@@ -1401,40 +1439,48 @@ def check_result(ctx, sc, an, enc, sel, via, res, variant):
     if sel_missing:
         ctx.count("selected-deletion-of-missing-file")
     # a stored tree that is not a tree: the family of every failure that follows from accepting the selection
-    fam_unclosed = FAM_UNCLOSED if py_wf(expW1) and not py_wf(expS) else None
+    fam_unclosed = FAM_UNCLOSED if w1_wf and not py_wf(expS) else None
+    if slot_ignored:
+        fam_unclosed = fam_ent      # the remaining tree is no tree only because of a missing file's slot
     # ---- oracle ----------------------------------------------------------
     if res["err"] is not None:
         ctx.count("refused:" + res["err"])
         if w1 != an["W"] or res["d1"][1] != an["missing"] or res["d1"][5] != an["iter_changes"]:
-            ctx.violation(case, "shelving failed with %s but the working tree changed: %r" % (
-                res["err"], [(f, a) for f, a, e, g in diff_dumps(an["W"], w1)][:4]), family=None)
+            ctx.violation(case, "shelving failed with %s but the working tree changed: %r%s" % (
+                res["err"], [(f, a) for f, a, e, g in diff_dumps(an["W"], w1)][:4],
+                " [the remaining tree is no tree only because of the inventory slot of a versioned-but-missing file: %r]"
+                % [f.decode() for f in ent] if slot_ignored else ""), family=fam_ent if slot_ignored else None)
         if res["ids1"] != res["ids0"]:
             ctx.count("stale-shelf-left-by-refused-transform")
         if is_closed:
-            ctx.violation(case, "a closed selection (remaining tree and stored tree are trees) was refused: %s %s" % (
-                res["err"], res.get("errtext")), family=None)
-        elif py_wf(expW1):
+            ctx.violation(case, "a closed selection (remaining tree and stored tree are trees) was refused: %s %s%s" % (
+                res["err"], (res.get("errtext") or "")[:160],
+                " [versioned-but-missing files with an entangled inventory slot: %r]" % [f.decode() for f in ent] if ent else ""),
+                family=fam_ent)
+        elif w1_wf:
             ctx.count("refused:selection-not-closed")
     else:
         if res["d1"][3] == "corrupt":
-            ctx.violation(case, "the working tree cannot be read after shelving: %s" % res["d1"][6],
-                          family=None)
+            ctx.violation(case, "the working tree cannot be read after shelving: %s%s" % (
+                res["d1"][7], " [the selection was accepted although the remaining tree has two entries for the slot of "
+                "a versioned-but-missing file: %r]" % [f.decode() for f in ent] if slot_ignored else ""),
+                family=fam_ent if slot_ignored else None)
             res["err"] = "E:Corrupt"
-            return case, model_line(enc, an, sel, via, variant, {}), is_closed
+            return case, None, is_closed
         dd = diff_dumps(expW1, w1)
         if dd:
             ctx.violation(case, "after shelving the tree is not (basis for the selected changes, working tree for the others): "
                           "%r" % ([(f.decode(), a, e and e[4], g and g[4]) if a == ["exec"] else (f.decode(), a) for f, a, e, g in dd][:4],),
-                          family=None)
+                          family=fam_ent if slot_ignored else None)
         if res["d1"][1] != exp_missing1:
             ctx.violation(case, "after shelving the versioned-but-missing files are %r, expected %r (a shelved deletion "
                           "re-creates the file, every other missing file stays missing and versioned)" % (
-                              res["d1"][1], exp_missing1), family=None)
+                              res["d1"][1], exp_missing1), family=fam_ent if slot_ignored else None)
         # the same through the real iter_changes: exactly the ids that still differ from the basis are reported
         exp_changed = sorted({f.decode("latin-1") for f in set(expW1) | set(an["B"]) if expW1.get(f) != an["B"].get(f)})
         if not dd and res["d1"][1] == exp_missing1 and changed_ids(res["d1"][5]) != exp_changed:
             ctx.violation(case, "after shelving iter_changes reports changes for %r, the unselected changes are in %r" % (
-                changed_ids(res["d1"][5]), exp_changed), family=None)
+                changed_ids(res["d1"][5]), exp_changed), family=fam_ent if slot_ignored else None)
         new = set(res["d1"][2]) - set(an["strays"])
         if new:
             ctx.violation(case, "shelving left new unversioned files: %r" % sorted(new))
@@ -1501,6 +1547,8 @@ def check_result(ctx, sc, an, enc, sel, via, res, variant):
             if res.get("msg") != "msg %s" % (list(sel),):
                 ctx.violation(case, "shelf message not preserved: %r" % (res.get("msg"),))
     # ---- model -------------------------------------------------------------
+    if ent:
+        return case, None, is_closed     # the model does not see the slot of an entangled missing file
     line = model_line(enc, an, sel, via, variant, rec1 if res["err"] is None else {})
     return case, line, is_closed
 
@@ -1589,6 +1637,8 @@ def run_scenarios(ctx, seeds, cap, variant):
         if r is None:
             continue
         case, line, is_closed = r
+        if line is None:
+            continue
         lines.append(line)
         pend.append((enc, case, line, res, is_closed))
     if lines and ctx.model_available:
@@ -1863,7 +1913,7 @@ def run_empty_basis(ctx):
                 with open(os.path.join(d, n), "wb") as f:
                     f.write(n.encode() + b"\n")
         wt.add(names, ids=[ids[n] for n in names])
-        before = dump_wt(d)
+        before = dump_wt(d)[:6]
         case = dict(empty_basis=True, sel=list(sel))
         closed = all(os.path.dirname(n) in ("",) + sel for n in sel)
         ctx.case(case, nontrivial=bool(sel))
@@ -1987,6 +2037,10 @@ def widen(ctx):
 
 
 def replay(ctx, case):
+    if "probe" in case:
+        v = probe_variant()
+        return dict(case=case, variant=dict(zip(("keepExec", "freshExec", "pathCheck", "closedCheck"), v)),
+                    note="a False flag is the defective behaviour described in the violation text")
     if "mgr_ops" in case:
         run_manager_long(ctx, case.get("sequence", "replay"), case["mgr_ops"])
         return dict(case=case, oracle_failures=[v["what"] for v in ctx.violations])
@@ -1994,10 +2048,6 @@ def replay(ctx, case):
         return dict(case=case, note="re-run the check with the same seed (run_empty_basis enumerates the subsets of 5 additions)")
     if "scenario" not in case:
         return dict(case=case, note="short manager / git cases are replayed by re-running the check with the same seed")
-    if "probe" in case:
-        v = probe_variant()
-        return dict(case=case, variant=dict(zip(("keepExec", "freshExec", "pathCheck", "closedCheck"), v)),
-                    note="a False flag is the defective behaviour described in the violation text")
     variant = "".join("T" if x else "F" for x in probe_variant())
     sc = build_scenario(tuple(case["scenario"]))
     an = analyse(sc)
@@ -2007,7 +2057,7 @@ def replay(ctx, case):
     out = dict(case=case, oracle_failures=[v["what"] for v in ctx.violations],
                impl=dict(err=res["err"], after_shelve=_short(res["d1"][0]),
                          after_unshelve=_short(res["d2"][0]) if "d2" in res else None, unshelve_error=res.get("uerr")))
-    if r is not None and ctx.model_available:
+    if r is not None and r[1] is not None and ctx.model_available:
         out["model"] = ctx.model([r[1]])[0]
         compare_model(ctx, enc, r[0], r[1], out["model"], res, r[2])
         out["agree"] = not ctx.mismatches
